@@ -142,6 +142,20 @@ CHECKS["C03"] = dict(
     note="Bounds: (a) universe 2 (quick) / 2 and 3 (thorough); (b) universe 2, k = 2 facts, <= 3 iterations per close (quick); up to universe 3 / 3 facts / 4 "
          "iterations (thorough); histories in which a close needs more iterations are outside the claim. Trusted: as for C01.")
 
+CHECKS["C17"] = dict(
+    technique="bounded history queries by SAT over the symbolically executed generated module (incl. recompute_model_indices, with the real toposort.rs interpreted): closedness under the inheritance axioms after symbolic API histories, and self-composition of histories for order independence",
+    text="For the model-declaration programs of the corpus (one model type; a member predicate over a global type; a member predicate over a member type "
+         "pushed forward through the morphism application graph) the solver shows, for all public histories within the stated plans over a universe of 2 "
+         "elements per type: after close() every reference rule holds, including the inheritance axiom `dom(m)=a, cod(m)=b, R(a,xs) => R(b,m(xs))` of each "
+         "member relation and the program's rules read over inherited tuples; the same after `calls; close_until stopped at a symbolic point; more calls; "
+         "close()`; and (thorough tier) two histories asserting the same symbolic facts in different orders with intermediate closes end in the same model. "
+         "Cyclic morphism graphs are outside the quantifier. Counterexamples are scripts replayed natively. Known finding F5 (inherited tuples born old) is "
+         "reported for exactly the histories in which a morphism's dom/cod is asserted after a close; the queries are repeated with those histories excluded.",
+    design_ref="§4 C17, §9",
+    note="This check is a bounded history search, not an inductive proof: no invariant for the own/all index copies has been formulated, so histories longer "
+         "than the plans (quick: 3 calls + close, 3 calls + early stop + 2 calls + close; <= 3 iterations per close) are outside the claim. Reference rules of "
+         "these programs are hand-written (corpus/models/META.json). Trusted as for C01.")
+
 NOT_APPLICABLE = {
     "C02": "check not built yet (ghost-model soundness lemma planned, DESIGN.md §9)",
     "C03": "check not built yet (follows from C01 + C02 lemmas; idempotence lemma planned)",
